@@ -62,9 +62,9 @@ def sample2(states, k, seed):
     return [st for i, st in enumerate(keyed) if (i + seed) % k == 0]
 
 
-def random_pairs(n, seed):
+def random_pairs(n, seed, nq=4, nt=5):
     rnd = random.Random(seed)
-    singles = c01.random_cases(2 * n, seed + 17, nq=4, nt=5)
+    singles = c01.random_cases(2 * n, seed + 17, nq=nq, nt=nt)
     cases = []
     for i in range(n):
         x, y = singles[2 * i], singles[2 * i + 1]
@@ -102,6 +102,7 @@ def random_dfas(n, seed):
 
 
 MERGED_POOL = ["s", "a", "b", "a;b", "a;b#1", "a;b#2", "b;a", "a;b;a"]      # spellings the library itself produces
+JOINED_POOL = ["a", "a; b", "b; a", "a;b", "b;a", "b", "a;a", "b;b"]     # any two of them joined by a separator can be read in two ways
 TWIN_POOL = ["s", "a", "b", "a;b", "a;b#1", "a;b#2", "a;b#3", "a;b#4", "a;b#5", "a;b#6", "b;a", "a;b;a"]
 
 
@@ -139,6 +140,7 @@ def use_merged_pool():
     from harness import fa
     fa.STATE_POOLS["merged"] = MERGED_POOL
     fa.STATE_POOLS["twin"] = TWIN_POOL
+    fa.STATE_POOLS["joined"] = JOINED_POOL
 
 
 def pair_cases(tier, seed, work, stats, fams):
